@@ -317,6 +317,22 @@ func genC20Plan(rt *rapid.T) kPlan {
 	p.Events = append(p.Events, reshardEvents()...)
 	p.Events = append(p.Events, lateEvents...)
 	sort.SliceStable(p.Events, func(a, b int) bool { return p.Events[a].AtUs < p.Events[b].AtUs })
+	if kills && !unhealed {
+		// a node left with a stale view (late-slot shape) that is promoted by a failover answers -MOVED back to
+		// the node that redirected to it: an unhealed loop, which MaxMovedRedirections 0 follows until the context
+		// ends (documented), so such plans need deadlines as well
+		healed := map[string]bool{}
+		for _, e := range p.Events {
+			if e.Kind == "heal" {
+				healed[e.Node] = true
+			}
+		}
+		for _, e := range p.Events {
+			if e.Kind == "view" && !healed[e.Node] {
+				unhealed = true
+			}
+		}
+	}
 	for ci := range p.Callers {
 		for oi := range p.Callers[ci] {
 			op := &p.Callers[ci][oi]
